@@ -59,6 +59,8 @@ func init() {
 				Bound: "intersect(x,x)=x for maps of depth<=3, keys {a,b}, lists<=2"},
 			{Pkg: "bkli", Func: "HarnessC16_pair", Tiers: "qt", Covers: []string{"c16.checked", "c16.roundtrip"},
 				Bound: "two inputs; quick: {a: scalar|flat map|list<=1, b: scalar?}; thorough: maps of depth<=2, lists<=1; result vs functional model, commonality, maximality, argument order, and bkld+bkl round trip per input"},
+			{Pkg: "bkli", Func: "HarnessC16_lists", Tiers: "qt", Covers: []string{"c16.checked", "c16.roundtrip"},
+				Bound: "two inputs {l: list of <=2 (thorough 3) symbolic-kind scalars, k}: every pattern of shared, repeated and reordered entries; model, commonality, maximality, bkld round trip per input (argument-order assertion withheld only inside region C16-R3)"},
 			{Pkg: "bkli", Func: "HarnessC16_three", Tiers: "qt", Covers: []string{"c16.checked", "c16.roundtrip"},
 				Bound: "three flat inputs over keys {a,b}, folded as cmd/bkli main does"},
 		},
@@ -112,6 +114,8 @@ func init() {
 				Bound: "an unknown directive-shaped string (every such printable string <= 6 / 9 bytes) as value, key or list entry (next to $required) under $output: false"},
 			{Pkg: "bkl", Func: "HarnessC07_outputs", Tiers: "qt", Covers: []string{"outputs.accepted", "outputs.rejected"},
 				Bound: "the C06 skeleton (any $$-free printable string <= 3 / 5 bytes at one position, one of 25 directive names/shapes at a second) as an emitted subtree in 5 selection shapes: explicit $output:true map, the same below a hidden root, below a hidden inner map, a list selected by a marker entry below a hidden root, nested selections; every emitted document marker-free, a bare $required in it always an error"},
+			{Pkg: "bkl", Func: "HarnessC07_soup", Tiers: "qt", Covers: []string{"soup.output", "soup.error"},
+				Bound: "the C08 directive soup (13 directive keys x 9 argument kinds x 7 positions, alone or as upper of two layers; thorough: plus a second directive map in the same document): whenever evaluation succeeds every emitted document is marker-free"},
 			{Pkg: "bkl", Func: "HarnessC07_latin1", Tiers: "qt", Covers: []string{"latin1.lower", "latin1.other"},
 				Bound: "\"$\" followed by EVERY two-byte UTF-8 sequence C2/C3 xx (Latin-1 supplement), optionally one more byte, as value, key and list entry: rejected iff the rune is a lower-case letter, passed through unchanged otherwise"},
 			{Pkg: "bkl", Func: "HarnessC07_encode", Tiers: "qt", Covers: []string{"encode.checked"},
@@ -127,6 +131,8 @@ func init() {
 				Bound: "each of 13 directive keys with an argument of arbitrary kind (symbolic-kind scalar with ints in [-2,5], 16 directive/path strings, [], {}, [s], [str], {a:s}, [{a:1},x], {$match:{},$path:a}) at 7 positions (root, nested map, nested with siblings, list entry, list entry with sibling, two levels down, host under its own key), alone and as the upper of two layers; engine-enforced: no reachable panic, every path within 5e6 instructions and 20000 frames"},
 			{Pkg: "bkl", Func: "HarnessC08_strings", Tiers: "qt", Covers: []string{"fuzz.error", "fuzz.output"},
 				Bound: "16 directive-shaped strings as value, list entry, key, nested key and $value argument, next to a second such string"},
+			{Pkg: "bkl", Func: "HarnessC08_interp", Tiers: "qt", Covers: []string{"interp.cyclic", "interp.acyclic"},
+				Bound: "two interpolation strings a, b with 1-3 references each to a, b or a plain leaf, in every combination: every cycle reported as an error, every evaluation within the instruction budget; acyclic ones accepted"},
 			{Pkg: "bkl", Func: "HarnessC03_cycle", Tiers: "qt", Covers: []string{"cycle.checked"},
 				Bound: "$parent cycles of length 1, 2 and 3 between files of a virtual file system: must end in an error (no hang, no memory blow-up)"},
 			{Pkg: "bkl", Func: "HarnessC08_refs", Tiers: "qt", Covers: []string{"refs.cyclic", "refs.acyclic"},
@@ -162,6 +168,8 @@ func init() {
 				Bound: "all 9 format pairs for one symbolic integer: match(), useless-override detection in merge() and the $repeat count check (n in [0,2]) agree"},
 			{Pkg: "bkl", Func: "HarnessC04_structure", Tiers: "qt", Covers: []string{"structure.checked"},
 				Bound: "one document with numbers at the top level, inside a list, inside a map inside a list and inside an array of tables, delivered as JSON (json.Number), TOML (int64/float64, []map[string]any) and YAML (node tree): all 9 format pairs canonicalise to the same tree with Go int / float64 leaves, for every two int64 and every finite double"},
+			{Pkg: "bkl", Func: "HarnessC04_streams", Tiers: "qt", Samples: 24, Covers: []string{"streams.checked"},
+				Bound: "streams of 1-3 concrete documents from 6 shapes (empty map, nested lists/maps, empty containers, floats, negative ints, list of tables) through each of the 5 stream codecs (encode, decode, normalize): same stream back, same count; the codecs are the engine's native boundary (real functions on concrete data)"},
 			{Pkg: "bkl", Func: "HarnessC04_mergekeys", Tiers: "qt", Covers: []string{"mergekey.single", "mergekey.list"},
 				Bound: "YAML mapping nodes with << (alias to a map / list of two aliases), keys {a,b,c}, local keys before or after the merge key: equals the expanded mapping"},
 		},
@@ -249,6 +257,10 @@ func init() {
 	reg(propSpec{
 		ID: "C09",
 		Harnesses: []harnessSpec{
+			{Pkg: "bkl", Func: "HarnessC09_retain", Tiers: "qt", Samples: 5, Covers: []string{"retain.checked"},
+				Bound: "per output format {json, jsonl, json-pretty, yaml, toml}: bytes returned for one input keep their content while two further inputs are evaluated, the same input gives the same bytes; natively (replay of every path) additionally 8 goroutines x 40 evaluations. The codecs are a native boundary: this harness is decided by the native replay of all 5 paths, which checks the purity assumption the other harnesses rely on"},
+			{Pkg: "bkl", Func: "HarnessC09_soup", Tiers: "qt", Covers: []string{"soup.output", "soup.error"},
+				Bound: "the C08 directive soup (13 directive keys x 9 argument kinds x 7 positions, alone or as upper of two layers; thorough: plus a second directive map in the same document): result under three global iteration policies applied to every range at once (reversed, rotated left, rotated right) equals the insertion-order result"},
 			{Pkg: "bkl", Func: "HarnessC09_order", Tiers: "qt", Order: true, Covers: []string{"order.output", "order.error"},
 				Bound: "9 input families (3-key maps with nulls, 4 $output selections, 3 named $repeat counts, flags/values transforms, layering with $delete and additions, $merge with overlapping keys, interpolated/$env keys of which two collide after evaluation, several $required, a $merge whose target lies inside its own host); leaves symbolic-kind scalars; one (quick) / two (thorough) `range`-over-map instances per evaluation leave insertion order, over all permutations and with inserted keys visited or not; every path compared with a canonical reference run"},
 		},
@@ -261,6 +273,8 @@ func init() {
 	reg(propSpec{
 		ID: "C19",
 		Harnesses: []harnessSpec{
+			{Pkg: "bkl", Func: "HarnessC19_soup", Tiers: "qt", Covers: []string{"soup.output", "soup.error"},
+				Bound: "the C08 directive soup (13 directive keys x 9 argument kinds x 7 positions, alone or as upper of two layers; thorough: plus a second directive map in the same document): two successive outputs agree and the stored documents are unchanged by them"},
 			{Pkg: "bkl", Func: "HarnessC19_history", Tiers: "qt", Covers: []string{"history.repeat", "history.merge", "history.documents", "history.withoutput"},
 				Bound: "1-2 documents from 10 families ($merge, $replace + $merge: string, document $repeat, $encode, $output true/false + list $repeat, interpolation + null, plain, forward cross-document $replace, its target holding a nested $merge, $merge maps inside a list-valued key), then 3 (quick) / 4 (thorough) calls each chosen from {OutputDocuments, MergeDocument(next layer: add key | change value | change what a nested $merge resolves to | $match: null append), Documents}; a twin parser receives the same merges and is never asked for output"},
 		},
